@@ -67,7 +67,8 @@ class C06(Prop):
         # credit granted by the application on the requester side: Subscription.request(n) at any moment relative to the (possibly
         # fragmented) request frame leaving the endpoint
         for _ in range(n // 3):
-            grants = [[rng.choice(['now', 'now', 'after1', 'after2', 'drained']), rng.choice([1, 2, 5, 2 ** 31 - 1])] for _ in range(rng.randint(1, 3))]
+            grants = [[rng.choice(['now', 'now', 'after1', 'after2', 'drained', 'insub']), rng.choice([1, 2, 5, 2 ** 31 - 1])] for _ in range(rng.randint(1, 3))]
+            grants.sort(key=lambda g: g[0] != 'insub')
             out.append({'mode': 'grant', 'kind': 'requester', 'channel': rng.random() < 0.4, 'F': rng.choice([None, 64, 64, 80]), 'size': rng.choice([0, 20, 150, 400]),
                         'n0': rng.choice([1, 2, 7]), 'grants': grants, 'lp': rng.random() < 0.5})
         return out
@@ -93,9 +94,16 @@ class C06(Prop):
         base = len(t.sent)
         t.gated = True               # from now on every write blocks until the harness releases it
 
+        done = []
+
         class Sub:
             subscription = None
-            def on_subscribe(self, s): self.subscription = s
+            def on_subscribe(self, s):
+                self.subscription = s
+                for when, n in case['grants']:
+                    if when == 'insub':
+                        s.request(n)          # the usual reactive-streams place to ask for (more) credit
+                        done.append(n)
             def on_next(self, v, is_complete=False): pass
             def on_complete(self): pass
             def on_error(self, e): pass
@@ -105,9 +113,10 @@ class C06(Prop):
             c.request_channel(payload).initial_request_n(case['n0']).subscribe(sub)
         else:
             c.request_stream(payload).initial_request_n(case['n0']).subscribe(sub)
-        done = []
         writes = 0
         for when, n in case['grants']:
+            if when == 'insub':
+                continue
             target = {'now': 0, 'after1': 1, 'after2': 2, 'drained': 10 ** 6}[when]
             while writes < target:
                 await loop.settle()
